@@ -17,6 +17,7 @@
 #include <xmmintrin.h>
 
 #include "atomic_wrapper.h"
+#include "verif_hook.h"
 
 namespace yakushima {
 
@@ -200,9 +201,11 @@ public:
         for (;;) {
             desired = expected;
             desired.inc_vinsert_delete();
+            YAKUSHIMA_VERIF_PRE(k_cas, o_version, &body_);
             if (body_.compare_exchange_weak(expected, desired,
                                             std::memory_order_acq_rel,
                                             std::memory_order_acquire)) {
+                YAKUSHIMA_VERIF_POST(k_cas, o_version, &body_, desired, 1);
                 break;
             }
         }
@@ -214,9 +217,11 @@ public:
         for (;;) {
             desired = expected;
             desired.set_border(tf);
+            YAKUSHIMA_VERIF_PRE(k_cas, o_version, &body_);
             if (body_.compare_exchange_weak(expected, desired,
                                             std::memory_order_acq_rel,
                                             std::memory_order_acquire)) {
+                YAKUSHIMA_VERIF_POST(k_cas, o_version, &body_, desired, 1);
                 break;
             }
         }
@@ -228,9 +233,11 @@ public:
         for (;;) {
             desired = expected;
             desired.set_deleted(tf);
+            YAKUSHIMA_VERIF_PRE(k_cas, o_version, &body_);
             if (body_.compare_exchange_weak(expected, desired,
                                             std::memory_order_acq_rel,
                                             std::memory_order_acquire)) {
+                YAKUSHIMA_VERIF_POST(k_cas, o_version, &body_, desired, 1);
                 break;
             }
         }
@@ -242,9 +249,11 @@ public:
         for (;;) {
             desired = expected;
             desired.set_inserting_deleting(tf);
+            YAKUSHIMA_VERIF_PRE(k_cas, o_version, &body_);
             if (body_.compare_exchange_weak(expected, desired,
                                             std::memory_order_acq_rel,
                                             std::memory_order_acquire)) {
+                YAKUSHIMA_VERIF_POST(k_cas, o_version, &body_, desired, 1);
                 break;
             }
         }
@@ -256,9 +265,11 @@ public:
         for (;;) {
             desired = expected;
             desired.set_root(tf);
+            YAKUSHIMA_VERIF_PRE(k_cas, o_version, &body_);
             if (body_.compare_exchange_weak(expected, desired,
                                             std::memory_order_acq_rel,
                                             std::memory_order_acquire)) {
+                YAKUSHIMA_VERIF_POST(k_cas, o_version, &body_, desired, 1);
                 break;
             }
         }
@@ -270,9 +281,11 @@ public:
         for (;;) {
             desired = expected;
             desired.set_splitting(tf);
+            YAKUSHIMA_VERIF_PRE(k_cas, o_version, &body_);
             if (body_.compare_exchange_weak(expected, desired,
                                             std::memory_order_acq_rel,
                                             std::memory_order_acquire)) {
+                YAKUSHIMA_VERIF_POST(k_cas, o_version, &body_, desired, 1);
                 break;
             }
         }
@@ -294,15 +307,19 @@ public:
             for (size_t i = 1;; ++i) {
                 expected = get_body();
                 if (expected.get_locked()) {
+                    YAKUSHIMA_VERIF_PRE(k_spin, o_version, &body_);
                     if (i >= 10) { break; }
+                    YAKUSHIMA_VERIF_PRE(k_spin, o_version, &body_);
                     _mm_pause();
                     continue;
                 }
                 desired = expected;
                 desired.set_locked(true);
+                YAKUSHIMA_VERIF_PRE(k_cas, o_version, &body_);
                 if (body_.compare_exchange_weak(expected, desired,
                                                 std::memory_order_acq_rel,
                                                 std::memory_order_acquire)) {
+                    YAKUSHIMA_VERIF_POST(k_cas, o_version, &body_, desired, 2);
                     return;
                 }
             }
@@ -311,7 +328,14 @@ public:
     }
 
     [[nodiscard]] node_version64_body get_body() const {
+#ifdef YAKUSHIMA_VERIF
+        YAKUSHIMA_VERIF_PRE(k_load, o_version, &body_);
+        node_version64_body vb_ = body_.load(std::memory_order_acquire);
+        YAKUSHIMA_VERIF_POST(k_load, o_version, &body_, vb_, 1);
+        return vb_;
+#else
         return body_.load(std::memory_order_acquire);
+#endif
     }
 
     [[nodiscard]] bool get_border() const { return get_body().get_border(); }
@@ -335,6 +359,7 @@ public:
                 !sv.get_splitting()) {
                 return sv;
             }
+            YAKUSHIMA_VERIF_PRE(k_spin, o_version, &body_);
             _mm_pause();
         }
     }
@@ -354,6 +379,8 @@ public:
     void init() { set_body(node_version64_body()); }
 
     void set_body(const node_version64_body newv) {
+        YAKUSHIMA_VERIF_PRE(k_store, o_version, &body_);
+        YAKUSHIMA_VERIF_POST(k_store, o_version, &body_, newv, 1);
         body_.store(newv, std::memory_order_release);
     }
 
@@ -375,9 +402,11 @@ public:
                 desired.set_splitting(false);
             }
             desired.set_locked(false);
+            YAKUSHIMA_VERIF_PRE(k_cas, o_version, &body_);
             if (body_.compare_exchange_weak(expected, desired,
                                             std::memory_order_acq_rel,
                                             std::memory_order_acquire)) {
+                YAKUSHIMA_VERIF_POST(k_cas, o_version, &body_, desired, 1);
                 break;
             }
         }
